@@ -34,6 +34,9 @@ mod lsutil;
 #[path = "../ls/c30.rs"]
 mod c30;
 
+#[path = "../ls/c29.rs"]
+mod c29;
+
 /// Report of harness/build.rs about the checked-in generated parser (empty = up to date).
 const STALE_REPORT: &str = include_str!(concat!(env!("OUT_DIR"), "/ls_stale_report.txt"));
 
@@ -45,6 +48,7 @@ fn main() {
     }
     match args[1].as_str() {
         "c30" => c30::cli(&args[2..]),
+        "c29" => c29::cli(&args[2..]),
         "stale" => {
             if STALE_REPORT.is_empty() {
                 println!("fresh");
